@@ -83,7 +83,7 @@ theorem sendPendingPing_keep (c : Conn) : Keep15 c c.sendPendingPing.1 := by
       · exact Keep15.of_view rfl rfl
 
 theorem ackAndApply_keep (c : Conn) (v : List (Nat × Nat)) : Keep15 c (ackAndApply c v).1 := by
-  obtain ⟨ms, iw, p, hv⟩ := view_applyRemoteSettings c.streams v (!c.settings.hasReceivedRemoteInitialSettings)
+  obtain ⟨ms, iw, p, hv, -⟩ := view_applyRemoteSettings c.streams v (!c.settings.hasReceivedRemoteInitialSettings)
   have hs := (ackAndApply_spec c v).2.1
   refine ⟨?_, by rw [hs, hv], by rw [hs, hv]⟩
   unfold ackAndApply
@@ -161,6 +161,51 @@ theorem pollReadyT_keep (c : Conn) : Keep15 c (pollReadyT c).1.1 ∧ sentG (poll
 
 -- ===================================================================== recv_frame / recv_settings
 
+/-- what `recv_frame` does with a PING once `recv_ping` has answered (a copy) -/
+def pingTail (c : Conn) (shutdown : Bool) : Conn × Except PErr Conn.ReceivedFrame :=
+  if shutdown then
+    let c := if c.goAway.isGoingAway then c else c.panic "received unexpected shutdown ping"
+    (c.dynGoAway c.streams.recv.lastProcessedId NO_ERROR, .ok .continue)
+  else (c, .ok .continue)
+
+theorem recvFrame_ping_eq (c : Conn) (ack : Bool) (payload : Bytes) :
+    c.recvFrame (some (.ping ack payload)) =
+      pingTail
+        (let r := c.pingPong.recvPing ack payload
+         let c0 : Conn := { c with pingPong := r.1, streams := c.streams.wake r.2.2.1 }
+         if r.2.2.2 then c0 else c0.panic "ping_pong assertion")
+        ((c.pingPong.recvPing ack payload).2.1 == .shutdown) := rfl
+
+theorem pingTail_step15 (c c1 : Conn) (sh : Bool) (hi : GoAwayInv c) (hg : c1.goAway = c.goAway)
+    (hv : view c1.streams = view c.streams) : Step15 c (pingTail c1 sh).1 := by
+  have k1 : Keep15 c c1 := Keep15.of_view hg hv
+  unfold pingTail
+  cases sh with
+  | false => exact k1.step hi
+  | true =>
+    simp only [if_true]
+    have k2 : Keep15 c (if c1.goAway.isGoingAway then c1 else c1.panic "received unexpected shutdown ping") := by
+      split
+      · exact k1
+      · exact k1.trans (Keep15.of_view rfl (by simp [Conn.panic]))
+    generalize (if c1.goAway.isGoingAway then c1 else c1.panic "received unexpected shutdown ping") = c2 at k2 ⊢
+    have i2 := k2.inv hi
+    obtain ⟨d1, -, -, d4, -, -⟩ := dynGoAway_inv c2 c2.streams.recv.lastProcessedId NO_ERROR (Nat.le_refl _) i2.lpi_le_max
+      (fun ga hga => i2.lpi_le_ga ga hga)
+    refine ⟨d1, ?_⟩
+    intro m hm
+    refine ⟨_, by unfold gaLast; rw [d4]; rfl, ?_⟩
+    have hm' : gaLast c2 = some m := by
+      unfold gaLast at hm ⊢; rw [k2.1]; exact hm
+    unfold gaLast at hm'
+    cases hga : c2.goAway.goingAway with
+    | none => rw [hga] at hm'; cases hm'
+    | some ga =>
+      rw [hga] at hm'
+      simp at hm'
+      rw [← hm']
+      exact i2.lpi_le_ga ga hga
+
 /-- `recv_frame` while `close_now` is unset keeps the invariant; the announced id can only go down
     (the ACK of the shutdown PING) -/
 theorem recvFrame_step15 (c : Conn) (frame : Option Frame.Frame) (hi : GoAwayInv c) (hcn : c.goAway.closeNow = false) :
@@ -171,16 +216,18 @@ theorem recvFrame_step15 (c : Conn) (frame : Option Frame.Frame) (hi : GoAwayInv
         | (s, .error e) => ({ c with streams := s }, Except.error e)).1 := by
     intro r hv
     rcases r with ⟨s, r⟩
-    cases r <;> exact (Keep15.of_view rfl hv).step hi
-  unfold Conn.recvFrame
+    have hv' : view s = view c.streams := hv
+    cases r <;> exact (Keep15.of_view (c := c) (c' := { c with streams := s }) rfl hv').step hi
   cases frame with
   | none =>
+    unfold Conn.recvFrame
     refine (Keep15.step ⟨rfl, ?_, ?_⟩ hi)
     · show (view (c.streams.recvEof false)).lpi = _; rw [view_recvEof]
     · show (view (c.streams.recvEof false)).rmax = _; rw [view_recvEof]
   | some f =>
     cases f with
     | headers sid eos dep blk =>
+      unfold Conn.recvFrame
       dsimp only
       obtain ⟨l, hl1, hl2⟩ := view_recvHeaders c.streams (Conn.headersIn sid eos blk)
       rcases hr : c.streams.recvHeaders (Conn.headersIn sid eos blk) with ⟨s, r⟩
@@ -205,13 +252,14 @@ theorem recvFrame_step15 (c : Conn) (frame : Option Frame.Frame) (hi : GoAwayInv
           · exact hi.pend
           · exact hi.close_ga
       cases r <;> exact ⟨hinv, GaLe.of_eq rfl⟩
-    | data sid payload eos padLen => exact lift _ (view_recvData _ _ _ _ _)
-    | reset sid code => exact lift _ (view_recvReset _ _ _)
-    | pushPromise sid promised blk => exact lift _ (view_recvPushPromise _ _ _)
-    | windowUpdate sid inc => exact lift _ (view_recvWindowUpdate _ _ _)
+    | data sid payload eos padLen => unfold Conn.recvFrame; exact lift _ (view_recvData _ _ _ _ _)
+    | reset sid code => unfold Conn.recvFrame; exact lift _ (view_recvReset _ _ _)
+    | pushPromise sid promised blk => unfold Conn.recvFrame; exact lift _ (view_recvPushPromise _ _ _)
+    | windowUpdate sid inc => unfold Conn.recvFrame; exact lift _ (view_recvWindowUpdate _ _ _)
     | priority sid dep w e => exact (Keep15.refl c).step hi
     | settings ack vals => exact (Keep15.refl c).step hi
     | goAway last code debug =>
+      unfold Conn.recvFrame
       dsimp only
       obtain ⟨g1, g2⟩ := view_recvGoAwayFrame c.streams last code debug
       rcases hr : c.streams.recvGoAwayFrame last code debug with ⟨s, r⟩
@@ -220,49 +268,17 @@ theorem recvFrame_step15 (c : Conn) (frame : Option Frame.Frame) (hi : GoAwayInv
       | error e =>
         obtain ⟨e1, -⟩ := g2 e rfl
         dsimp only at e1
-        exact (Keep15.of_view rfl (by show view s = _; rw [e1])).step hi
+        exact (Keep15.of_view (c := c) (c' := { c with streams := s }) rfl (by show view s = _; rw [e1])).step hi
       | ok u =>
         obtain ⟨e1, -⟩ := g1 u rfl
         dsimp only at e1
-        exact (Keep15.step ⟨rfl, by show (view s).lpi = _; rw [e1], by show (view s).rmax = _; rw [e1]⟩ hi)
+        exact (Keep15.step (c := c) (c' := { c with streams := s, error := some { lastStreamId := last, reason := code, debugData := debug } })
+          ⟨rfl, by show (view s).lpi = _; rw [e1], by show (view s).rmax = _; rw [e1]⟩ hi)
     | ping ack payload =>
-      dsimp only
-      rcases hrp : c.pingPong.recvPing ack payload with ⟨pp, status, woken, ok⟩
-      dsimp only
-      -- the connection after the bookkeeping of `recv_ping`
-      have hk1 : ∀ c1 : Conn, c1.goAway = c.goAway → view c1.streams = view c.streams →
-          Step15 c (if status == .shutdown then
-            ((if c1.goAway.isGoingAway then c1 else c1.panic "received unexpected shutdown ping").dynGoAway
-              (if c1.goAway.isGoingAway then c1 else c1.panic "received unexpected shutdown ping").streams.recv.lastProcessedId NO_ERROR,
-              (Except.ok Conn.ReceivedFrame.continue : Except PErr Conn.ReceivedFrame))
-            else (c1, Except.ok Conn.ReceivedFrame.continue)).1 := by
-        intro c1 hg hv
-        have k1 : Keep15 c c1 := Keep15.of_view hg hv
-        split
-        · have k2 : Keep15 c (if c1.goAway.isGoingAway then c1 else c1.panic "received unexpected shutdown ping") := by
-            split
-            · exact k1
-            · exact k1.trans (Keep15.of_view rfl (by simp [Conn.panic]))
-          have i2 := k2.inv hi
-          obtain ⟨d1, -, -, d4, -, -⟩ := dynGoAway_inv _ _ NO_ERROR (Nat.le_refl _) i2.lpi_le_max
-            (fun ga hga => i2.lpi_le_ga ga hga)
-          refine ⟨d1, ?_⟩
-          intro m hm
-          refine ⟨_, by simp [gaLast, d4], ?_⟩
-          have hm' : gaLast (if c1.goAway.isGoingAway then c1 else c1.panic "received unexpected shutdown ping") = some m := by
-            unfold gaLast at hm ⊢; rw [k2.1]; exact hm
-          unfold gaLast at hm'
-          cases hga : (if c1.goAway.isGoingAway then c1 else c1.panic "received unexpected shutdown ping").goAway.goingAway with
-          | none => rw [hga] at hm'; cases hm'
-          | some ga =>
-            rw [hga] at hm'
-            simp at hm'
-            rw [← hm']
-            exact i2.lpi_le_ga ga hga
-        · exact k1.step hi
-      split
-      · exact hk1 _ rfl (by simp)
-      · exact hk1 _ rfl (by simp [Conn.panic])
+      rw [recvFrame_ping_eq]
+      apply pingTail_step15 c _ _ hi
+      · dsimp only; split <;> rfl
+      · dsimp only; split <;> simp [Conn.panic]
 
 theorem recvSettings_keep (c : Conn) (ack : Bool) (vals : List (Nat × Nat)) : Keep15 c (c.recvSettings ack vals).1 := by
   cases ack with
@@ -284,5 +300,191 @@ theorem recvSettings_keep (c : Conn) (ack : Bool) (vals : List (Nat × Nat)) : K
       cases r <;> exact ⟨rfl, by show (view s).lpi = _; rw [hw], by show (view s).rmax = _; rw [hw]⟩
     | toSend l => rw [recvSettings_ack_unsolicited c vals (by intro l' h; rw [hl] at h; cases h)]; exact Keep15.refl c
     | synced => rw [recvSettings_ack_unsolicited c vals (by intro l' h; rw [hl] at h; cases h)]; exact Keep15.refl c
+
+-- ===================================================================== go_away_now / handle_poll2_result
+
+theorem Step15.trans {a b c : Conn} (h1 : Step15 a b) (h2 : GoAwayInv b → Step15 b c) : Step15 a c :=
+  ⟨(h2 h1.1).1, h1.2.trans (h2 h1.1).2⟩
+
+theorem goAwayNowData_step15 (c : Conn) (e : Reason) (d : Bytes) (hi : GoAwayInv c) : Step15 c (c.goAwayNowData e d) := by
+  refine ⟨(goAwayNowData_inv c e d hi).1, ?_⟩
+  intro m hm
+  have hg := (goAwayNow_result c e d c.goAway.isUserInitiated hi).2.1
+  refine ⟨c.streams.recv.lastProcessedId, ?_, ?_⟩
+  · unfold gaLast
+    rw [goAwayNowData_eq c e d hi]
+    dsimp only
+    rw [hg]; rfl
+  · unfold gaLast at hm
+    cases hga : c.goAway.goingAway with
+    | none => rw [hga] at hm; cases hm
+    | some ga =>
+      rw [hga] at hm
+      simp at hm
+      rw [← hm]
+      exact hi.lpi_le_ga ga hga
+
+theorem keep15_handleError (c : Conn) (err : PErr) : Keep15 c { c with streams := (c.streams.handleError err).1 } := by
+  have := (view_handleError c.streams err).1
+  exact ⟨rfl, by show (view (c.streams.handleError err).1).lpi = _; rw [this],
+    by show (view (c.streams.handleError err).1).rmax = _; rw [this]⟩
+
+theorem handleGoAway_step15 (c : Conn) (r : Reason) (d : Bytes) (i : Initiator) (hi : GoAwayInv c) :
+    Step15 c (c.handleGoAway r d i) := by
+  rcases handleGoAway_cases c r d i with h | h <;> rw [h]
+  · exact (Keep15.of_view (c := c) (c' := { c with state := .closing r i }) rfl rfl).step hi
+  · exact ((keep15_handleError c (.goAway d r i)).step hi).trans (fun h1 => goAwayNowData_step15 _ r d h1)
+
+theorem handlePoll2Result_step15 (c : Conn) (res : Except PErr Unit) (hi : GoAwayInv c) :
+    Step15 c (c.handlePoll2Result res).1 := by
+  unfold Conn.handlePoll2Result
+  cases res with
+  | ok u => exact (Keep15.of_view (c := c) (c' := { c with state := .closing NO_ERROR .library }) rfl rfl).step hi
+  | error e =>
+    cases e with
+    | goAway d r i => exact handleGoAway_step15 c r d i hi
+    | reset id r i =>
+      dsimp only
+      split
+      · exact (Keep15.refl c).step hi
+      · rcases hs : c.streams.innerSendReset id r with ⟨s, rr⟩
+        have hv : view s = view c.streams := by
+          have := view_innerSendReset c.streams id r; rw [hs] at this; exact this
+        have k : Keep15 c { c with streams := s } := Keep15.of_view rfl hv
+        cases rr with
+        | ok u => exact k.step hi
+        | error g => exact (k.step hi).trans (fun h1 => handleGoAway_step15 _ _ _ _ h1)
+    | io kind msg =>
+      dsimp only
+      have k := keep15_handleError c (.io kind msg)
+      split
+      · exact Keep15.step (c := c) ⟨rfl, k.2.1, k.2.2⟩ hi
+      · exact k.step hi
+
+-- ===================================================================== the loop of poll2
+
+/-- what a run of `poll` satisfies for C15 -/
+def Run15 (c : Conn) (x : (Conn × PollRes) × List Ev) : Prop := GoAwayInv x.1.1 ∧ SentOK c x.2 x.1.1
+
+theorem Run15.pre {c c1 : Conn} {e1 : List Ev} {x : (Conn × PollRes) × List Ev}
+    (h1 : SentOK c e1 c1) (h2 : Run15 c1 x) : Run15 c (x.1, e1 ++ x.2) :=
+  ⟨h2.1, h1.trans h2.2⟩
+
+theorem Run15.left {c c0 : Conn} {x : (Conn × PollRes) × List Ev} (k : Keep15 c c0) (h : Run15 c0 x) : Run15 c x :=
+  ⟨h.1, by have := SentOK.trans (SentOK.quiet (evs := []) rfl k.gaLe) h.2; simpa using this⟩
+
+theorem Step15.run {c c1 : Conn} {evs : List Ev} (h : Step15 c c1) (hq : sentG evs = []) (r : PollRes) :
+    Run15 c ((c1, r), evs) := ⟨h.1, SentOK.quiet hq h.2⟩
+
+theorem Step15.sent {c c1 : Conn} {evs : List Ev} (h : Step15 c c1) (hq : sentG evs = []) : SentOK c evs c1 :=
+  SentOK.quiet hq h.2
+
+theorem sentG_frameEv (frame : Option Frame.Frame) : sentG (frameEv frame) = [] := by
+  unfold frameEv
+  (repeat' split) <;> rfl
+
+theorem sendPendingGoAwayT_reason (c : Conn) (r : Reason) (h : (sendPendingGoAwayT c).1.2 = .reason r) :
+    (sendPendingGoAwayT c).1.1.goAway.pending = none := by
+  unfold sendPendingGoAwayT at h ⊢
+  cases hp : c.goAway.pending with
+  | none =>
+    rw [hp] at h
+    dsimp only at h ⊢
+    (repeat' split) <;> exact hp
+  | some f =>
+    rw [hp] at h
+    dsimp only at h ⊢
+    rcases hc : c.codecPollReady with ⟨c1, st⟩
+    rw [hc] at h
+    cases st with
+    | pending => cases h
+    | err e => cases h
+    | ok => rfl
+
+theorem poll2DispatchT_15 (kT : Conn → (Conn × PollRes) × List Ev) (hk : ∀ c, GoAwayInv c → Run15 c (kT c))
+    (c : Conn) (frame : Option Frame.Frame) (hi : GoAwayInv c) (hcn : c.goAway.closeNow = false) :
+    Run15 c (poll2DispatchT kT c frame) := by
+  have hs := recvFrame_step15 c frame hi hcn
+  have hq := sentG_frameEv frame
+  unfold poll2DispatchT
+  rcases hF : c.recvFrame frame with ⟨c1, r1⟩
+  rw [hF] at hs
+  dsimp only at hs
+  cases r1 with
+  | error e => exact hs.run hq _
+  | ok rf =>
+    cases rf with
+    | «continue» => exact Run15.pre (hs.sent hq) (hk c1 hs.1)
+    | done => exact hs.run hq _
+    | settings a v =>
+      dsimp only
+      have ks := recvSettings_keep c1 a v
+      rcases hS : c1.recvSettings a v with ⟨c2, r2⟩
+      rw [hS] at ks
+      dsimp only at ks
+      have hs2 : Step15 c c2 := hs.trans (fun h1 => ks.step h1)
+      cases r2 with
+      | error e => exact hs2.run hq _
+      | ok u => exact Run15.pre (hs2.sent hq) (hk c2 hs2.1)
+
+theorem poll2ReadT_15 (kT : Conn → (Conn × PollRes) × List Ev) (hk : ∀ c, GoAwayInv c → Run15 c (kT c))
+    (c : Conn) (hi : GoAwayInv c) (hcn : c.goAway.closeNow = false) : Run15 c (poll2ReadT kT c) := by
+  unfold poll2ReadT
+  rcases h1 : pollNext (c.codec.r.buf.length + c.codec.io.rd.length + 2) c.codec c.cx with ⟨codec, polled⟩
+  dsimp only
+  have k : Keep15 c { c with codec := codec } := Keep15.of_view rfl rfl
+  split
+  · exact (k.step hi).run rfl _
+  · exact (k.step hi).run rfl _
+  · exact (k.step hi).run rfl _
+  · exact Run15.left k (poll2DispatchT_15 kT hk _ _ (k.inv hi) hcn)
+
+theorem poll2GoOnT_15 (kT : Conn → (Conn × PollRes) × List Ev) (hk : ∀ c, GoAwayInv c → Run15 c (kT c))
+    (c : Conn) (hi : GoAwayInv c) (hcn : c.goAway.closeNow = false) : Run15 c (poll2GoOnT kT c) := by
+  obtain ⟨p1, p2⟩ := pollReadyT_keep c
+  unfold poll2GoOnT
+  rcases hP : pollReadyT c with ⟨⟨c1, st1⟩, e1⟩
+  rw [hP] at p1 p2
+  dsimp only at p1 p2
+  cases st1 with
+  | pending => exact (p1.step hi).run p2 _
+  | err e => exact (p1.step hi).run p2 _
+  | ok => exact Run15.pre ((p1.step hi).sent p2) (poll2ReadT_15 kT hk c1 (p1.inv hi) (by rw [p1.1]; exact hcn))
+
+/-- **the loop of `Connection::poll2` keeps the GOAWAY invariant and sends GOAWAYs with
+    non-increasing ids**, for every state satisfying the invariant and every amount of input -/
+theorem poll2LoopT_15 : ∀ (fuel : Nat) (c : Conn), GoAwayInv c → Run15 c (poll2LoopT fuel c)
+  | 0, c, hi => ((Keep15.of_view (c := c) (c' := c.panic "model: poll2 out of fuel") rfl (by simp [Conn.panic])).step hi).run rfl _
+  | fuel + 1, c, hi => by
+    obtain ⟨s1, s2, -⟩ := sendPendingGoAwayT_sent c hi
+    obtain ⟨-, g2, g3, -, -, -, -, -, -, g10⟩ := sendPendingGoAwayT_spec c
+    have hr := sendPendingGoAwayT_reason c
+    unfold poll2LoopT
+    rcases hG : sendPendingGoAwayT c with ⟨⟨c1, st1⟩, e0⟩
+    rw [hG] at s1 s2 g2 g3 g10 hr
+    dsimp only at s1 s2 g2 g3 g10 hr
+    cases st1 with
+    | pending => exact ⟨s1, s2⟩
+    | err e => exact ⟨s1, s2⟩
+    | none =>
+      have hcn : c1.goAway.closeNow = false := by
+        cases hc : c1.goAway.closeNow with
+        | false => rfl
+        | true =>
+          exfalso
+          have hh : Halting c := ⟨by rw [← g2]; exact hc, hi.close_ga (by rw [← g2]; exact hc)⟩
+          exact g10 hh
+      exact Run15.pre s2 (poll2GoOnT_15 _ (poll2LoopT_15 fuel) c1 s1 hcn)
+    | reason r =>
+      dsimp only
+      split
+      · split <;> exact ⟨s1, s2⟩
+      · rename_i hns
+        have hcn : c1.goAway.closeNow = false := by
+          have hp := hr r rfl
+          cases hc : c1.goAway.closeNow with
+          | false => rfl
+          | true => exact absurd (by simp [GoAway.shouldCloseNow, hp, hc]) hns
+        exact Run15.pre s2 (poll2GoOnT_15 _ (poll2LoopT_15 fuel) c1 s1 hcn)
 
 end H2V.Lemmas.ConnCtlP
